@@ -188,6 +188,15 @@ def valid_packets(rng):
     for caps in variants:
         res.append(("handshake", None, cl.handshake_response(user=b"user", auth=b"\x01\x02\x03", caps=caps, db=b"db", charset=8,
                                                              attrs=[(b"k", b"v"), (b"_os", b"linux")])))
+    # announced lengths / counts that are absurd against the bytes present (the loops must end with the data, not the counter)
+    body = cl.lenstr(b"k") + cl.lenstr(b"v") + cl.lenstr(b"_os") + cl.lenstr(b"linux")
+    for caps in (cl.BASE_CAPS | cl.CLIENT_CONNECT_ATTRS | cl.CLIENT_CONNECT_WITH_DB, cl.BASE_CAPS | cl.CLIENT_CONNECT_ATTRS | cl.CLIENT_PLUGIN_AUTH_LENENC):
+        base = cl.handshake_response(user=b"user", auth=b"\x01\x02\x03", caps=caps, db=b"db", charset=8, attrs=[(b"k", b"v"), (b"_os", b"linux")])
+        head = base[:len(base) - len(cl.lenenc(len(body)) + body)]
+        for absurd in (b"\xfe" + b"\xff" * 8, b"\xfd\xff\xff\xff", b"\xfc\xff\xff", b"\xfe" + (2 ** 40).to_bytes(8, "little")):
+            res.append(("handshake", None, head + absurd + body))
+            res.append(("handshake", None, head + absurd + body[:3]))
+            res.append(("handshake", None, head + absurd))
     res.append(("handshake", None, cl.ssl_request(charset=8)))
     for w in [cl.BASE_CAPS, cl.BASE_CAPS | cl.CLIENT_CONNECT_ATTRS, cl.CLIENT_PROTOCOL_41 | cl.CLIENT_PLUGIN_AUTH]:
         p = b"user\0" + (b"\x03abc" if w & cl.CLIENT_SECURE_CONNECTION else b"abc\0") + b"db\0" + struct.pack("<H", 8)
@@ -197,6 +206,11 @@ def valid_packets(rng):
             body = cl.lenstr(b"k") + cl.lenstr(b"v")
             p += cl.lenenc(len(body)) + body
         res.append(("change_user", w, p))
+        if w & cl.CLIENT_CONNECT_ATTRS:
+            cut = len(cl.lenenc(len(body)) + body)
+            for absurd in (b"\xfe" + b"\xff" * 8, b"\xfd\xff\xff\xff", b"\xfe" + (2 ** 40).to_bytes(8, "little")):
+                res.append(("change_user", w, p[:len(p) - cut] + absurd + body))
+                res.append(("change_user", w, p[:len(p) - cut] + absurd))
     return res
 
 
